@@ -25,6 +25,8 @@ pub(crate) mod c07;
 pub(crate) mod c16;
 #[path = "/verif/harness/d/c09.rs"]
 pub(crate) mod c09;
+#[path = "/verif/harness/d/c05.rs"]
+pub(crate) mod c05;
 
 use vcore::{BatchPlan, Check};
 
@@ -76,6 +78,7 @@ pub(crate) fn verif_main(args: &[String]) -> i32 {
     let c07 = c07::FsmWire;
     let c16 = c16::Admission;
     let c09 = c09::ExportRules;
-    let checks: Vec<&dyn Check> = vec![&c08, &c01, &c10, &c13, &c07, &c16, &c09];
+    let c05 = c05::MalformedUpdates;
+    let checks: Vec<&dyn Check> = vec![&c08, &c01, &c10, &c13, &c07, &c16, &c09, &c05];
     vcore::main_with(&checks, &plan, args)
 }
